@@ -159,3 +159,22 @@ CHECKS['C02'] = dict(
     assumptions=['a NULL iterator counts as the empty result'],
     budget={'quick': 300, 'thorough': 2400},
 )
+
+_RIT = H('h_riter.c', 'asan', exclude=['mtbl/iter.c', 'mtbl/block.c', 'mtbl/reader.c'])
+CHECKS['C03'] = dict(
+    level=MC, engine='bfs',
+    technique='explicit-state breadth-first search over the real reader iterator objects: states are operation histories replayed on fresh iterators, deduplicated by a canonical hash of the private iterator fields plus the reference model state, run to a fixpoint; plus an undeduplicated depth-bounded tree and a two-iterator product',
+    text='For every table layout (1-4 blocks of 1-3 entries, plus 5-10 entry blocks so that galloping/binary search over restart points is exercised), restart interval {1,2,3,16}, foreign prefix {0,13}, compression {none,lz4}, and every iterator kind (iter, get, get_prefix, get_range with boundary/miss/reversed arguments) the search applies next and seek(k) for every k in the target set (stored keys, just-below neighbours, empty key, past-the-end key, index separators) from EVERY reachable iterator state until no new state appears, checking each step against a lower-bound reference iterator and re-reading the previously returned buffers. Because the state space is finite the verdict holds for histories of any length, which is exactly what the property quantifies over.',
+    jobs=[
+        dict(name='bfs', spec=_RIT, args=['bfs']),
+        dict(name='tree', spec=_RIT, args=['tree']),
+        dict(name='pair', spec=_RIT, args=['pair']),
+    ],
+    states_key='states', transitions_key='transitions', traces_key='executions',
+    rule='a state = canonical hash of (block_offset, decoded block content, both block iterators, flags, reference position); signature = (layout, restart, prefix, compression, iterator kind/arguments)',
+    bounds={'quick': 'layouts: <=3 blocks x 1..3 entries and 5 big-block layouts (5-10 entries/block, restart 1..4); search depth unbounded (fixpoint); tree: all histories of depth<=3 on <=2 blocks x 1..2 entries (big blocks: depth 2); pair: product of two iterators on <=2 blocks',
+            'thorough': 'layouts <=5 blocks x 1..3 entries; 3 key families; tree depth 4 on <=3 blocks; pairs on <=3 blocks'},
+    nonzero=['states', 'transitions', 'multi_block_tables', 'searches'],
+    assumptions=['seek targets are passed in harness-owned copies', 'the canonical hash covers every field the transition functions read as of the pinned tree; the undeduplicated tree mode does not depend on it'],
+    budget={'quick': 400, 'thorough': 2400},
+)
